@@ -789,14 +789,14 @@ func checkBaseReferences(c *Ctx, t *tables, a *parserAnchors, lexFld *types.Var)
 }
 
 func triviaSkipper(c *Ctx) *ssa.Function {
-	buf := c.fieldByType("lexer", "Lexer", func(t types.Type) bool {
+	buf := c.fieldByTypeUsedIn("lexer", "Lexer", func(t types.Type) bool {
 		s, ok := t.Underlying().(*types.Slice)
 		if !ok {
 			return false
 		}
 		b, ok := s.Elem().Underlying().(*types.Basic)
 		return ok && b.Kind() == types.String
-	})
+	}, "(*lexer.Lexer).readLeadingComments", "(*lexer.Lexer).NewToken")
 	if buf == nil {
 		return nil
 	}
